@@ -132,9 +132,27 @@ fn check_backend<F: Backend>(
         if bx.iter().any(|(l, u)| l != u) {
             st.inc("boxes_nondegenerate");
         }
+        // The all-nodes function keeps every value alive to the end, which
+        // hides register-aliasing patterns (an operand dying at the op that
+        // reuses its register). A second function exports only a random
+        // subset: its result intervals are judged against operand intervals
+        // taken from the all-nodes twin of the same backend.
+        let subset: Vec<usize> = (0..order.len()).filter(|i| *i + 1 == order.len() || rng.chance(0.35)).collect();
+        let sub_nodes: Vec<Node> = subset.iter().map(|&i| order[i]).collect();
+        let fsub = F::new(&b.ctx, &sub_nodes).unwrap();
+        let ssub = slot_map(fsub.vars(), &b.vars).unwrap();
+        let sinput: Vec<Interval> = ssub.iter().map(|&s| Interval::new(bx[s].0, bx[s].1)).collect();
+        let mut sub_iv: HashMap<usize, Interval> = HashMap::new();
+        if let Ok(Ok((o, _))) = guarded(|| interval_eval(&fsub, &sinput)) {
+            for (k, &i) in subset.iter().enumerate() {
+                sub_iv.insert(i, o[k]);
+            }
+            st.inc("partial_export_evals");
+        }
         // -------- obligation 1: operand sampling
-        for (i, &n) in order.iter().enumerate() {
-            let i_n = ivs[i];
+        for (i, &n) in order.iter().enumerate().chain(subset.iter().filter(|i| sub_iv.contains_key(i)).map(|&i| (i + order.len(), &order[i]))) {
+            // indices >= order.len() denote "node i of the partial-export function"
+            let (i, i_n) = if i >= order.len() { (i - order.len(), sub_iv[&(i - order.len())]) } else { (i, ivs[i]) };
             let (opname, ia, ib, is_bin) = match *b.ctx.get_op(n).unwrap() {
                 Op::Unary(o, a) => (map_un(o).name(), ivs[idx[&a]], Interval::from(0.0), false),
                 Op::Binary(o, a, c) => (map_bin(o).name(), ivs[idx[&a]], ivs[idx[&c]], true),
@@ -279,16 +297,20 @@ fn random_matrix(rng: &mut Rng) -> Matrix4<f32> {
             }
         }
         _ => {
-            // mildly projective
+            // mildly projective, or affine with a homogeneous scale w != 1
             for i in 0..3 {
                 for j in 0..4 {
                     m[(i, j)] = rng.uniform(-1.5, 1.5) as f32;
                 }
             }
-            for j in 0..3 {
-                m[(3, j)] = rng.uniform(-0.1, 0.1) as f32;
+            if rng.chance(0.5) {
+                for j in 0..3 {
+                    m[(3, j)] = rng.uniform(-0.1, 0.1) as f32;
+                }
+                m[(3, 3)] = rng.uniform(0.8, 1.2) as f32;
+            } else {
+                m[(3, 3)] = *rng.pick(&[0.5f32, 0.75, 2.0, 3.0]);
             }
-            m[(3, 3)] = rng.uniform(0.8, 1.2) as f32;
         }
     }
     m
@@ -340,8 +362,9 @@ fn check_transform<F: Backend>(
             st.inc("transform_points_judged");
             // the interval transform accumulates 4 products and a division
             // without outward rounding: allow 8 ulps of the largest term
-            let scale = (0..4).map(|j| (m[(k, j)] * if j < 3 { q[j] } else { 1.0 }).abs()).fold(v.abs(), f32::max);
-            let slack = scale * f32::EPSILON * 8.0;
+            let w = (0..4).map(|j| m[(3, j)] * if j < 3 { q[j] } else { 1.0 }).sum::<f32>();
+            let scale = (0..4).map(|j| (m[(k, j)] * if j < 3 { q[j] } else { 1.0 }).abs()).fold(v.abs(), f32::max) / w.abs().max(1e-6);
+            let slack = scale * f32::EPSILON * 16.0;
             if !(v >= tb[k].lower() - slack && v <= tb[k].upper() + slack) {
                 return Err(Viol {
                     sig: format!("transform:{name}:axis{k}"),
